@@ -66,8 +66,9 @@ class Trace:
                 continue
             elif k == "attack":
                 f = rest.split(" ")
-                self.attack = {"t": int(f[0]), "name": f[3], "pn": int(f[4])}
-                r = Rec("attack"); r.t = int(f[0])
+                self.attack = {"t": int(f[0]), "name": f[3], "pn": int(f[4]), "ep": f[1], "conn": f[2],
+                               "space": f[5] if len(f) > 5 else "app"}
+                r = Rec("attack"); r.t = int(f[0]); r.ep = f[1]
             else:
                 continue
             r.idx = idx
